@@ -125,8 +125,16 @@ func newC18Resolver(fd *ast.FuncDecl) *c18Resolver {
 	}
 	ast.Inspect(fd, func(n ast.Node) bool {
 		if as, ok := n.(*ast.AssignStmt); ok && len(as.Lhs) >= 1 && len(as.Rhs) == 1 {
+			// x := f(..)  /  x, err := f(..): the first name stands for the call
 			if id, ok := as.Lhs[0].(*ast.Ident); ok && id.Name != "_" && id.Name != "err" {
 				r.defs[id.Name] = append(r.defs[id.Name], c18Def{as.Pos(), as.Rhs[0]})
+			}
+		} else if ok && len(as.Lhs) == len(as.Rhs) {
+			// a, b := x, y
+			for i := range as.Lhs {
+				if id, ok := as.Lhs[i].(*ast.Ident); ok && id.Name != "_" && id.Name != "err" {
+					r.defs[id.Name] = append(r.defs[id.Name], c18Def{as.Pos(), as.Rhs[i]})
+				}
 			}
 		}
 		return true
